@@ -540,14 +540,25 @@ def run_property(mod, ctx, replay_path=None):
     payload = {"property": pid, "kind": "broken-proof-or-correspondence", "what": broken,
                "build_log_tail": build_log[-3000:] if not ok_build else "",
                "props_log_tail": props_log[-2000:] if not ok_props else ""}
+    found = False
     if bad_cases:
       i = min(bad_cases, key=shrink_key)
+      # a module may recognise a disagreement that is by itself a failing input of the property (e.g. the
+      # implementation raised where the model - and the theorem about it - says a value is returned)
+      dif = getattr(mod, "disagreement_is_failure", None)
+      if dif is not None:
+        for j in sorted(bad_cases, key=shrink_key):
+          why = dif(cases[j])
+          if why:
+            i, found = j, True
+            broken.insert(0, "implementation output violates the property: %s" % why)
+            break
       payload["case"] = cases[i].desc
       payload["info"] = cases[i].info
       payload["correspondence_point"] = "Harness/%s.v check" % mod.HMODULE
     # For properties whose statement IS "the output equals this formula" the
     # disagreeing case is itself an input on which the property fails.
-    found = bool(bad_cases) and getattr(mod, "FUNCTIONAL", False)
+    found = found or (bool(bad_cases) and getattr(mod, "FUNCTIONAL", False))
     violations.append(("; ".join(broken), payload, found))
   elif broken:
     violations[0][1]["also_broken"] = broken
